@@ -204,9 +204,10 @@ func impersonate(ca, other *tlsm.CA, certKind string, maxVer uint16) (connected 
 
 func runC16(r *Result, d *drv.Driver, tier string, seed int64, replay string) {
 	defer c16Sequences(r)
+	defer c16ChainTrust(r)
 	defer c16TicketForgery(r)
 	r.Rule = "exhaustive peer matrix against the real crypto/tls: a peer with certificate in {none, valid, self-signed, other CA, expired, wrong host, its own self-signed or foreign-CA leaf followed by a copy of a genuine client leaf / genuine server leaf / the CA certificate, a genuine leaf followed by junk} x max TLS version in {1.0, 1.1, 1.2, 1.3}, plus a plaintext peer, a peer that connects and leaves without sending anything, and one that leaves after the first bytes of a TLS record, " +
-		"attacks a Server (with read/write timeouts 2s, and with none) whose config (weak prior contents) went through DefaultServerTLSConfig - observed: session-auth / request-auth / handler invocations and whether a KMIP response came back; and a TLS server with each certificate x version impersonates towards a Client prepared by DefaultClientTLSConfig - observed: Connect result and application bytes received. Expected outcome = the model's handshake predicate. Plus client sequences: a trusting Client first, then a Client trusting only another CA against the same endpoint (TLS 1.2 and 1.3); and an outsider presenting a session ticket forged with keys the library itself yields for the server's public chain (ListenAndServe path). distinct = one per matrix cell"
+		"attacks a Server (with read/write timeouts 2s, and with none) whose config (weak prior contents) went through DefaultServerTLSConfig - observed: session-auth / request-auth / handler invocations and whether a KMIP response came back; and a TLS server with each certificate x version impersonates towards a Client prepared by DefaultClientTLSConfig - observed: Connect result and application bytes received. Expected outcome = the model's handshake predicate. Plus client sequences: a trusting Client first, then a Client trusting only another CA against the same endpoint (TLS 1.2 and 1.3); a Server started by ListenAndServe whose own certificate chain (leaf + issuing CA, as servers are usually configured) comes from another CA than the one its clients must chain to: clients with a certificate from the client CA / from the server's issuing CA / self-signed / none (TLS 1.2 and 1.3, first and second start on the same configuration); and an outsider presenting a session ticket forged with keys the library itself yields for the server's public chain (ListenAndServe path). distinct = one per matrix cell"
 	r.Exhaustive = true
 	ca, other := tlsm.NewCA("kmip-test-ca"), tlsm.NewCA("foreign-ca")
 	serverCert := tlsm.Leaf(ca, tlsm.LeafOpts{Host: "kmip.test"})
@@ -522,5 +523,100 @@ func c16TicketForgery(r *Result) {
 		case <-time.After(3 * time.Second):
 		}
 		r.Stats["ticket-forgery-scenarios"]++
+	}
+}
+
+// c16ChainTrust: who may connect is decided by ClientCAs alone. The server's own certificate comes - as it usually does - with
+// its chain (leaf followed by the issuing CA), and that CA is NOT the one client certificates must chain to. Through the
+// ListenAndServe path (everything the library does to the configuration on the way is included): a client holding a
+// certificate of the client CA is served; one holding a certificate issued by the server's CA, a self-signed one or none is not.
+// The server is started twice on the same configuration (whatever start-up does to it must not accumulate either).
+func c16ChainTrust(r *Result) {
+	serverCA, clientCA := tlsm.NewCA("server-issuing-ca"), tlsm.NewCA("client-ca")
+	serverCert := tlsm.Leaf(serverCA, tlsm.LeafOpts{Host: "kmip.test"})
+	serverCert.Certificate = append(serverCert.Certificate, serverCA.Cert.Raw)
+	cfg := &tls.Config{Certificates: []tls.Certificate{serverCert}, ClientCAs: clientCA.Pool}
+	kmip.DefaultServerTLSConfig(cfg)
+	clients := []struct {
+		name string
+		cert *tls.Certificate
+		ok   bool
+	}{
+		{"certificate issued by the client CA (ClientCAs)", func() *tls.Certificate { c := tlsm.Leaf(clientCA, tlsm.LeafOpts{Host: "client.test", Client: true}); return &c }(), true},
+		{"certificate issued by the CA of the server's own chain (not in ClientCAs)", func() *tls.Certificate { c := tlsm.Leaf(serverCA, tlsm.LeafOpts{Host: "client.test", Client: true}); return &c }(), false},
+		{"that certificate followed by the CA certificate", func() *tls.Certificate {
+			c := tlsm.Leaf(serverCA, tlsm.LeafOpts{Host: "client.test", Client: true})
+			c.Certificate = append(c.Certificate, serverCA.Cert.Raw)
+			return &c
+		}(), false},
+		{"self-signed certificate", func() *tls.Certificate {
+			c := tlsm.Leaf(clientCA, tlsm.LeafOpts{Host: "client.test", SelfSigned: true, Client: true})
+			return &c
+		}(), false},
+		{"no certificate", nil, false},
+	}
+	for start := 1; start <= 2; start++ {
+		var sa, calls int32
+		s := &kmip.Server{Addr: freeAddr(), TLSConfig: cfg, ReadTimeout: 2 * time.Second, WriteTimeout: 2 * time.Second}
+		s.SessionAuthHandler = func(c net.Conn) (interface{}, error) { atomic.AddInt32(&sa, 1); return nil, nil }
+		s.Handle(kmip.OPERATION_ACTIVATE, func(ctx *kmip.RequestContext, item *kmip.RequestBatchItem) (interface{}, error) {
+			atomic.AddInt32(&calls, 1)
+			return kmip.ActivateResponse{UniqueIdentifier: "x"}, nil
+		})
+		init := make(chan struct{})
+		ret := make(chan error, 1)
+		go func() { ret <- s.ListenAndServe(init) }()
+		<-init
+		for _, v := range []struct {
+			name string
+			max  uint16
+		}{{"1.2", tls.VersionTLS12}, {"1.3", tls.VersionTLS13}} {
+			for _, cl := range clients {
+				key := fmt.Sprintf("ListenAndServe (start #%d on this configuration), server chain = leaf + its issuing CA, ClientCAs = a different CA; client with %s, TLS %s", start, cl.name, v.name)
+				crumb("C16 " + key)
+				r.eval(key, true)
+				atomic.StoreInt32(&sa, 0)
+				atomic.StoreInt32(&calls, 0)
+				pool := x509.NewCertPool()
+				pool.AddCert(serverCA.Cert)
+				ccfg := &tls.Config{RootCAs: pool, ServerName: "kmip.test", MinVersion: tls.VersionTLS12, MaxVersion: v.max}
+				if cl.cert != nil {
+					ccfg.Certificates = []tls.Certificate{*cl.cert}
+				}
+				served := false
+				obs := ""
+				if c, e := tls.Dial("tcp", s.Addr, ccfg); e == nil {
+					_ = c.SetDeadline(time.Now().Add(2 * time.Second))
+					req := kmip.Request{Header: kmip.RequestHeader{Version: kmip.ProtocolVersion{Major: 1, Minor: 4}, BatchCount: 1},
+						BatchItems: []kmip.RequestBatchItem{{Operation: kmip.OPERATION_ACTIVATE, RequestPayload: kmip.ActivateRequest{UniqueIdentifier: "a"}}}}
+					if e := kmip.NewEncoder(c).Encode(&req); e == nil {
+						var resp kmip.Response
+						if e := kmip.NewDecoder(c).Decode(&resp); e == nil && len(resp.BatchItems) == 1 {
+							served = true
+						}
+					}
+					c.Close()
+				} else {
+					obs = "handshake refused "
+				}
+				time.Sleep(30 * time.Millisecond)
+				obs += fmt.Sprintf("sessionAuth=%d handler=%d response=%v", atomic.LoadInt32(&sa), atomic.LoadInt32(&calls), served)
+				if !cl.ok && (served || atomic.LoadInt32(&sa) != 0 || atomic.LoadInt32(&calls) != 0) {
+					r.find(Finding{Kind: "violation", What: "KMIP was served to a peer whose certificate does not chain to the configured client CAs (it chains to the CA of the server's own certificate)", Input: key,
+						Expect: "sessionAuth=0 handler=0 response=false", Actual: obs})
+				}
+				if cl.ok && !served {
+					r.find(Finding{Kind: "disagreement", What: "a client with a certificate of the configured client CA was not served (crypto/tls assumption or harness)", Input: key, Expect: "served", Actual: obs})
+				}
+				r.Stats["chain-trust-scenarios"]++
+			}
+		}
+		ctx, cancel := context.WithTimeout(context.Background(), 3*time.Second)
+		_ = s.Shutdown(ctx)
+		cancel()
+		select {
+		case <-ret:
+		case <-time.After(3 * time.Second):
+		}
 	}
 }
